@@ -47,7 +47,7 @@ func rep(c string, n int) string {
 
 // roundingTail returns digits to follow a p-digit prefix so that the rounding decision is delicate.
 func (g *G) roundingTail() string {
-	far := g.Pick(0, 1, 2, 17, 18, 19, 20, 40)
+	far := g.Pick(0, 1, 2, 17, 18, 19, 20, 36, 37, 38, 39, 40, 57, 76)
 	switch g.R.Intn(7) {
 	case 0:
 		return "5" // exact tie
